@@ -1,9 +1,45 @@
 (** C12 — every invocation terminates with status 0 or 1.  Statements only.
-    Proved: the index sites of the general path and of the fast lane cannot go out of range,
-    and range expansion is bounded by the number of parts.  Every loop of the model is
-    structural or runs on fuel = input length + 1. *)
+    Proved: for every argument vector and every input the model of main() ends in status 0
+    or 1 (or help/version, or "outside the model"), never in Panic or Hang; the index sites
+    of the general path and of the fast lane cannot go out of range; range expansion is
+    bounded by the number of parts.  Every loop of the model is structural or runs on fuel =
+    input length + 1, and the fuel is shown never to run out. *)
 From TucModel Require Import Base.Bytes Base.ListX Model.Bounds Model.Scan Model.Opt Model.CutBytes
-     Model.CutStr Model.FastLane Spec.Resolve Proofs.BoundsFacts Proofs.C06 Proofs.ScanSplit Proofs.C02 Proofs.C12.
+     Model.CutStr Model.FastLane Spec.Resolve Proofs.BoundsFacts Proofs.C06 Proofs.ScanSplit Proofs.C02 Proofs.C12 Model.Stream Model.Args Model.Main Proofs.C04 Proofs.C12Total.
+
+(** every invocation: whatever the argument vector (any strings: huge, negative or zero
+    indexes, unbalanced braces, empty values, multi-byte text, regexes in or out of the
+    family) and whatever the input (any bytes, empty, no final EOL), the run is a help/
+    version text, a rejection, a normal end with status 0 or 1 - or lies outside what the
+    model describes ([MUnknown]: a regex outside the modelled family, -c on text that is not
+    valid UTF-8).  [Panic] (an index out of range, an unwrap on None) and [Hang] (a loop
+    that does not consume input) are unreachable. *)
+Theorem C12_every_invocation_ends_with_status_0_or_1 :
+  forall (argv : args) (input : bytes), mres_ok (run_main argv input).
+Proof. exact every_run_terminates_normally. Qed.
+
+(** the same per option set, for every option set with well-formed bounds (what parse_args
+    builds - C12_parse_args_builds_well_formed_options) *)
+Theorem C12_every_option_set_terminates :
+  forall (o : opt) (input : bytes), parsed_opt o -> mres_ok (run_opt o input).
+Proof. exact run_opt_total. Qed.
+
+Theorem C12_parse_args_builds_well_formed_options :
+  forall (argv : args) (o : opt), parse_args argv = POpt o -> parsed_opt o.
+Proof. exact parse_args_builds_parsed_opt. Qed.
+
+(** one record through the whole general path (trim, compress, split plain/greedy/regex/
+    characters, -s, complement, range expansion, output loop): never Panic, never Hang *)
+Theorem C12_general_path_record :
+  forall (o : opt) (line0 : bytes), bounds_ok o -> rx_consistent o ->
+    match cut_str o line0 with Some r => rres_ok r | None => True end.
+Proof. exact cut_str_total. Qed.
+
+(** -M never runs out of fuel and every record read to its EOL yields output or fails *)
+Theorem C12_fixed_memory_terminates :
+  forall (so : sopt) (input : bytes), no_adjacent_fillers (s_items so) ->
+    outcome_ok (run_stream_whole so input).
+Proof. exact fixed_memory_total. Qed.
 
 (** the literal splitter (plain and greedy) yields sorted, non-overlapping, in-range matches
     for every delimiter, the empty one included *)
@@ -38,3 +74,8 @@ Print Assumptions C12_greedy_matches_are_well_formed.
 Print Assumptions C12_general_path_never_indexes_out_of_range.
 Print Assumptions C12_fast_lane_never_indexes_out_of_range.
 Print Assumptions C12_range_expansion_is_bounded_by_the_parts.
+Print Assumptions C12_every_invocation_ends_with_status_0_or_1.
+Print Assumptions C12_every_option_set_terminates.
+Print Assumptions C12_parse_args_builds_well_formed_options.
+Print Assumptions C12_general_path_record.
+Print Assumptions C12_fixed_memory_terminates.
